@@ -4,7 +4,7 @@ from ..common import Check, hx, tags_tok
 from .. import jsongen
 
 THEOREMS = ['parseFilter_total', 'since_until_literal', 'since_until_wide_rejected', 'kind_member_bound',
-            'duplicate_letter_rejected', 'round_trip', 'round_trip_values']
+            'duplicate_letter_rejected', 'round_trip', 'round_trip_values', 'accepted_is_wellformed']
 
 
 def acc_values(a):
